@@ -291,11 +291,13 @@ def table_descs(case, nm=IDENT):
             for t, tb in case["inp"].items()}
 
 
-def build(case, nm=IDENT, upto=None):
-    """replay the builder calls; a rejected step leaves the stack unchanged"""
+def build(case, nm=IDENT, upto=None, record_text=False):
+    """replay the builder calls; a rejected step leaves the stack unchanged
+    (record_text: keep the printed form of the top pipeline right after each call, b.texts)"""
     descs = table_descs(case, nm)
     stack = [descs["t1"]]
     b = Built()
+    b.texts = []
     prog = case["prog"] if upto is None else case["prog"][:upto]
     for st in prog:
         try:
@@ -306,6 +308,8 @@ def build(case, nm=IDENT, upto=None):
             b.accepted.append(False)
             b.errors.append("%s: %s" % (type(ex).__name__, str(ex)[:200]))
         b.tops.append(stack[-1])
+        if record_text:
+            b.texts.append(str(stack[-1]))
     b.final = stack[-1]
     return b
 
